@@ -5,7 +5,8 @@ sys.path.insert(0, os.path.dirname(os.path.dirname(os.path.abspath(__file__))))
 from pyvc import contract as C
 from pyvc.run import load_all, verify_many
 load_all()
-props = sys.argv[1:]
+DRY = "--dry" in sys.argv          # --dry: verify and print, do not rewrite the baseline file
+props = [a for a in sys.argv[1:] if a != "--dry"]
 path = os.path.join(os.path.dirname(os.path.dirname(os.path.abspath(__file__))), "baseline", "obligations.json")
 base = json.load(open(path)) if os.path.exists(path) else {}
 cids = sorted(c for c, ct in C.CONTRACTS.items() if not ct.trusted and (not props or ct.prop in props or set(props) & set(ct.also)))
@@ -30,5 +31,6 @@ for prop in allprops:
     bad = sorted(k for k, v in clauses.items() if not all(x == "unsat" for x in v))
     base[prop] = {"clauses": good, "sha": sha}
     print(prop, len(good), "discharged", len(bad), "NOT discharged", bad[:5])
-os.makedirs(os.path.dirname(path), exist_ok=True)
-json.dump(base, open(path, "w"), indent=1)
+if not DRY:
+    os.makedirs(os.path.dirname(path), exist_ok=True)
+    json.dump(base, open(path, "w"), indent=1)
